@@ -65,6 +65,7 @@ def run_case(idx, rng, tier, rep):
     cfg = dict(normalize_outbound_headers=rng.random() < 0.8, validate_outbound_headers=rng.random() < 0.8)
     h = scen.Hostile(e_client, cfg=cfg, keep_log=True)
     t = h.t
+    t.scramble = rng.random() < 0.5      # the application reuses its header lists as soon as a call has returned
     h.mdec.max_allowed_table_size = 4096
     if not cfg['validate_outbound_headers']:
         rep.count('cases_with_outbound_validation_off')
